@@ -211,7 +211,7 @@ example : EnvR exRho id (fun _ _ => True) exS (exEnv exChart) (exEnv (exChart.ma
   guard := fun _ _ _ _ _ _ _ => rfl
   cond := fun _ _ _ _ _ _ _ _ _ => rfl
   exec := fun _ _ _ _ _ _ _ => ⟨rfl, trivial⟩
-  freeze := fun _ _ _ _ => trivial
+  freeze := fun _ _ _ _ _ => trivial
   deliver := fun _ _ _ _ _ _ => rfl
 end Example
 
